@@ -110,6 +110,9 @@ class NestedPayload(Packer):
         """
         size, = unpack_from(">H", data, offset)
         offset += 2
+        if offset + size > len(data):
+            msg = f"Nested payload promises {size} bytes, but only {len(data) - offset} remain"
+            raise PackError(msg)
         serializable_class = args[0]
         unpacked, _ = self.serializer.unpack_serializable(serializable_class, data[offset:offset + size])
         unpack_list.append(unpacked)
@@ -201,8 +204,12 @@ class VarLen(Packer):
         Unpack from VarLen packed data.
         """
         str_length = unpack_from(self.length_format, data, offset)[0] * self.base
-        unpack_list.append(data[offset + self.length_size: offset + self.length_size + str_length])
-        return offset + self.length_size + str_length
+        end = offset + self.length_size + str_length
+        if end > len(data):
+            msg = f"Length prefix promises {str_length} bytes, but only {len(data) - offset - self.length_size} remain"
+            raise PackError(msg)
+        unpack_list.append(data[offset + self.length_size: end])
+        return end
 
 
 class VarLenUtf8(VarLen):
@@ -360,6 +367,9 @@ class DefaultArray(Packer):
         Unpack a list of items from the known ``array`` format.
         """
         str_length = unpack_from(self.length_format, data, offset)[0] * self.base
+        if offset + self.length_size + str_length > len(data):
+            msg = f"Array promises {str_length} bytes, but only {len(data) - offset - self.length_size} remain"
+            raise PackError(msg)
         a = array(self.real_format_str)
         a.frombytes(data[offset + self.length_size: offset + self.length_size + str_length])
         unpack_list.append([bool(b) for b in a] if self.format_str == "?" else list(a))
